@@ -20,8 +20,76 @@ BUDGET = {
 ANCHORS = ["tx:sensitization_transform", "tx:sensitivity_transform", "props:sensitivity", "props:influence", "props:avg_sensitivity", "props:sensitize"]
 
 
+def gen_wide(rng):
+    """11..13 startpoints under one product term (few satisfying valuations, so the exact counts stay cheap): the
+    influences are odd multiples of 2^-(k-1), beyond the precision of any decimal rounding."""
+    k = rng.randint(11, 13)
+    cd = G.new_cdict("wideinf")
+    ins = [f"i{j}" for j in range(k)]
+    cd["nodes"] += [[x, "input", False] for x in ins]
+    lits = []
+    for x in ins:
+        if rng.random() < 0.3:
+            cd["nodes"].append([f"n_{x}", "not", False])
+            cd["edges"].append([x, f"n_{x}"])
+            lits.append(f"n_{x}")
+        else:
+            lits.append(x)
+    rng.shuffle(lits)
+    groups, j, loose = [], 0, rng.random() < 0.5
+    while lits:
+        sz = min(len(lits), rng.randint(2, 4))
+        grp, lits = lits[:sz], lits[sz:]
+        t = rng.choice(["and", "nor"]) if len(grp) > 1 else "buf"
+        if loose and len(grp) == 2:
+            t, loose = rng.choice(["or", "nand", "xor"]), False
+        cd["nodes"].append([f"g{j}", t, False])
+        cd["edges"] += [[x, f"g{j}"] for x in grp]
+        groups.append(f"g{j}")
+        j += 1
+    cd["nodes"].append(["top", "and", True])
+    cd["edges"] += [[g, "top"] for g in groups]
+    return {"c": cd, "n": "top", "mode": "wide_influence", "endpoints": None, "assume": {}}
+
+
+def check_wide(case, ctx):
+    cg = ctx.cg
+    c = G.build(cg, case["c"], "graph")
+    net = Net.of(c)
+    n = case["n"]
+    ins = sorted(net.inputs())
+    k = len(ins)
+    ctx.count("mode:wide_influence")
+    ctx.count(f"cone_startpoints:{k}")
+    vals, _ = sim.functions(net, ins)
+    want = {}
+    for i, s in enumerate(ins):
+        want[s] = Fraction(sim.popcount(vals[n] ^ flip_var(vals[n], i, k)), 1 << k)
+    ok, r = ctx.call(cg.props.influence, c, n, approx=False)
+    ctx.count("cmp:influence_11plus_startpoints")
+    if not ok:
+        ctx.violation("influence_raised", f"influence({n!r}, approx=False) raised {r!r}\n{getattr(r, '_tb', '')}")
+        return
+    try:
+        got = {s: Fraction(v) for s, v in r.items()}
+    except Exception:  # noqa: BLE001
+        got = None
+    if got != want:
+        bad = sorted(s for s in want if got is None or got.get(s) != want[s])[:3]
+        ctx.violation("influence", f"influence({n!r}) with {k} startpoints: {({s: r.get(s) for s in bad} if isinstance(r, dict) else r)!r}, exact fractions are { {s: str(want[s]) for s in bad} }")
+        return
+    ok, r = ctx.call(cg.props.avg_sensitivity, c, n, approx=False)
+    ctx.count("cmp:avg_sensitivity")
+    if not ok:
+        ctx.violation("avg_sensitivity_raised", f"avg_sensitivity({n!r}, approx=False) raised {r!r}")
+    elif Fraction(r) != sum(want.values()):
+        ctx.violation("avg_sensitivity", f"avg_sensitivity({n!r}) = {r}, the exact sum of the influences is {sum(want.values())}")
+
+
 def gen(rng, ctx):
     big = ctx.tier == "thorough"
+    if rng.random() < 0.03:
+        return gen_wide(rng)
     want_sp = rng.choice([1, 2, 2, 3, 4, 4, 5, 6, 7, 8, 8] if big else [1, 2, 2, 3, 4, 4, 5, 6, 7, 8])
     ni = want_sp + rng.randint(0, 1)
     ng = rng.randint(max(1, want_sp - 1), 8 if not big else 11)
@@ -95,6 +163,32 @@ def gen(rng, ctx):
         ins = [x for x in nodes if tps[x] == "input"]
         for x in rng.sample(ins, min(len(ins), rng.randint(1, 2))):
             assume[x] = rng.random() < 0.5
+    if rng.random() < 0.05 and not eps:
+        # n is a tie-off cell (constant node) feeding live logic: "every node n"
+        multi = [x for x in nodes if tps[x] in G.GATESN]
+        if multi:
+            cd["nodes"].append(["kc", rng.choice(["0", "1"]), False])
+            cd["edges"].append(["kc", rng.choice(multi)])
+            n, mode, assume = "kc", "const_node", {}
+    if rng.random() < 0.1:
+        # startpoints named like the nodes of an indexed / named inverted copy (inv0_<x>, inv_1_<x>, <x>_inv0)
+        alln = [x for x, _, _ in cd["nodes"]]
+        ins = [x for x in alln if G.cd_types(cd)[x] == "input"]
+        m = {}
+        for j, x in enumerate(rng.sample(ins, min(len(ins), rng.randint(1, 2)))):
+            y = rng.choice([z for z in alln if z != x])
+            nn = rng.choice([f"inv{j}_{y}", f"inv{rng.randint(0, 2)}_{y}", f"inv{j}"])
+            if nn not in alln and nn not in m.values():
+                m[x] = nn
+        if m:
+            try:
+                cd = G.cd_rename(cd, m)
+                n = m.get(n, n)
+                eps = (m.get(eps, eps) if isinstance(eps, str) else [m.get(e, e) for e in eps]) if eps else eps
+                assume = {m.get(a, a): v for a, v in assume.items()}
+                mode += "+indexed_copy_names"
+            except ValueError:
+                pass
     return {"c": cd, "n": n, "mode": mode, "endpoints": eps, "assume": assume}
 
 
@@ -107,12 +201,16 @@ def flip_var(f, i, k):
 
 
 def check(case, ctx):
+    if case["mode"] == "wide_influence":
+        return check_wide(case, ctx)
     cg = ctx.cg
     cd = case["c"]
     n = case["n"]
     c = G.build(cg, cd, "sparse" if len(cd["nodes"]) % 3 == 0 else "graph")
     net = Net.of(c)
     ctx.count(f"mode:{case['mode'].split('+')[0]}")
+    if "indexed_copy_names" in case["mode"]:
+        ctx.count("startpoints_named_like_indexed_copies")
     if "sole_output" in case["mode"]:
         ctx.count("sole_output_with_input_outside_cone")
     ins = sorted(net.inputs())
@@ -287,6 +385,9 @@ def check(case, ctx):
             ctx.count("popcount_block_edited_before_analysis")
     ok, st = ctx.call(cg.tx.sensitivity_transform, c, n)
     if not ok:
+        if "indexed_copy_names" in case["mode"] and isinstance(st, ValueError) and "overlap" in str(st):
+            ctx.reject("copy_name_taken")
+            return
         ctx.violation("sensitivity_transform_raised", f"sensitivity_transform({n!r}) raised {st!r}\n{getattr(st, '_tb', '')}")
     else:
         sn = Net.of(st)
@@ -393,7 +494,7 @@ def gates(counters, table, tier):
     for s in (1, 2, 3, 4, 5, 6, 7, 8):
         if counters.get(f"cone_startpoints:{s}", 0) < 3:
             out.append(f"cone with {s} startpoints seen {counters.get(f'cone_startpoints:{s}', 0)} times")
-    for k in ("mode:input", "mode:const_fn", "mode:output", "explicit_endpoints", "sens_impossible", "sens_possible", "sensitize_none", "sensitize_found", "sensitivity:0", "cmp:influence", "cmp:influence_of_two_nodes", "cmp:sensitivity_transform", "x_constant_outside_the_cone", "popcount_block_edited_before_analysis", "requery_after_count_preserving_rewire", "sole_output_with_input_outside_cone"):
+    for k in ("mode:input", "mode:const_fn", "mode:output", "explicit_endpoints", "sens_impossible", "sens_possible", "sensitize_none", "sensitize_found", "sensitivity:0", "cmp:influence", "cmp:influence_of_two_nodes", "cmp:sensitivity_transform", "x_constant_outside_the_cone", "popcount_block_edited_before_analysis", "requery_after_count_preserving_rewire", "sole_output_with_input_outside_cone", "cmp:influence_11plus_startpoints", "startpoints_named_like_indexed_copies", "mode:const_node"):
         if counters.get(k, 0) < 5:
             out.append(f"{k} seen {counters.get(k, 0)} times")
     return out
